@@ -20,20 +20,20 @@ type Violation struct {
 type Result struct {
 	mu sync.Mutex
 
-	Property     string         `json:"property"`
-	Part         string         `json:"part,omitempty"`
-	Evaluations  int64          `json:"evaluations"`
-	Distinct     int            `json:"distinct_nontrivial"`
-	Rule         string         `json:"rule"`
-	Samples      []any          `json:"samples"`
-	Observations map[string]any `json:"observations"`
+	Property     string           `json:"property"`
+	Part         string           `json:"part,omitempty"`
+	Evaluations  int64            `json:"evaluations"`
+	Distinct     int              `json:"distinct_nontrivial"`
+	Rule         string           `json:"rule"`
+	Samples      []any            `json:"samples"`
+	Observations map[string]any   `json:"observations"`
 	Counters     map[string]int64 `json:"counters"`
-	Violations   []Violation    `json:"violations"`
-	Inconclusive []string       `json:"inconclusive"`
-	Assumptions  []string       `json:"assumptions,omitempty"`
+	Violations   []Violation      `json:"violations"`
+	Inconclusive []string         `json:"inconclusive"`
+	Assumptions  []string         `json:"assumptions,omitempty"`
 
-	distinct map[uint64]struct{}
-	vkeys    map[string]int
+	distinct      map[uint64]struct{}
+	vkeys         map[string]int
 	MaxViolations int `json:"-"`
 	MaxSamples    int `json:"-"`
 }
@@ -60,7 +60,11 @@ func (r *Result) Nontrivial(h uint64) {
 
 func (r *Result) Count(name string, n int64) { r.mu.Lock(); r.Counters[name] += n; r.mu.Unlock() }
 
-func (r *Result) Counter(name string) int64 { r.mu.Lock(); defer r.mu.Unlock(); return r.Counters[name] }
+func (r *Result) Counter(name string) int64 {
+	r.mu.Lock()
+	defer r.mu.Unlock()
+	return r.Counters[name]
+}
 
 func (r *Result) Sample(s any) {
 	r.mu.Lock()
